@@ -673,6 +673,7 @@ type modSet struct {
 	regions map[types.Object]bool
 	wholes  map[types.Object]bool
 	calls   bool
+	cells   bool // stores through pointers to slice / map variables (list and map wrappers)
 }
 
 func (c *Ctx) modsOf(nodes ...ast.Node) modSet {
@@ -712,6 +713,12 @@ func (c *Ctx) modsOfV(visited map[*ast.FuncLit]bool, nodes ...ast.Node) modSet {
 				lhs(l.X)
 			}
 		case *ast.StarExpr:
+			if pt, ok := c.info.TypeOf(l.X).Underlying().(*types.Pointer); ok {
+				if _, isSlice := pt.Elem().Underlying().(*types.Slice); isSlice || isMapType(pt.Elem()) {
+					m.cells = true
+					break
+				}
+			}
 			m.calls = true
 		}
 	}
@@ -751,6 +758,7 @@ func (c *Ctx) modsOfV(visited map[*ast.FuncLit]bool, nodes ...ast.Node) modSet {
 						for f := range sub.fields {
 							m.fields[f] = true
 						}
+						m.cells = m.cells || sub.cells
 					}
 				}
 				// byte-slice arguments may be written by the callee — unless its contract says otherwise
@@ -817,7 +825,7 @@ func (c *Ctx) havocVal(name string, v Val, t types.Type, st *State) Val {
 		return ErrV{e}
 	case PtrV:
 		r := c.freshRaw(name, "Int")
-		return PtrV{Ref: r, Named: x.Named, Cell: x.Cell}
+		return PtrV{Ref: r, Named: x.Named, Cell: x.Cell, CellT: x.CellT}
 	case SliceV:
 		ln, cp := c.freshLen(name+"_len"), c.freshLen(name+"_cap")
 		c.assume(c.leIdx(ln, cp))
@@ -884,6 +892,10 @@ func (c *Ctx) havoc(st *State, m modSet) *State {
 	}
 	keys := sortedKeys(h.heap)
 	for _, k := range keys {
+		if strings.HasPrefix(k, "cell:") && (m.cells || m.calls) {
+			h.heap[k] = c.freshRaw("H_h", c.heapSorts[k])
+			continue
+		}
 		if !strings.HasPrefix(k, "fld:") {
 			continue
 		}
@@ -913,6 +925,7 @@ type mapEvent struct {
 	K, V     Val
 	Guard    string
 	Pos      token.Pos
+	Del      bool // delete(m, k)
 }
 
 type LoopSpec struct {
